@@ -571,9 +571,28 @@ def clock_agreement(run: Run, model: PyModel, rid: str) -> None:
 
 
 def commit_sites(run: Run, model: PyModel, eff: Effects, rid: str) -> None:
-    got = sorted(q.split("zorg.")[-1] for q, fi in model.funcs.items() if any(e.kind == "DB_COMMIT" for _, e in eff.direct(fi)))
-    want = ["storage.sql._repo.SQLRepo.remove_file_by_name", "storage.sql._session.SQLSession.commit"]
-    run.check(rid, "the database is committed only through SQLSession.commit and the per-page removal", got == want, "commit sites", f"{got}", f"functions that commit the database: {got}; expected {want}", file=FILE_R)
+    """The database is committed only by SQLSession.commit and inside the per-page removal (remove_file_by_name and helpers only it calls)."""
+    sites = sorted(q for q, fi in model.funcs.items() if any(e.kind == "DB_COMMIT" for _, e in eff.direct(fi)))
+    RM = f"{REPO}.SQLRepo.remove_file_by_name"
+    SC = "zorg.storage.sql._session.SQLSession.commit"
+    callers: dict[str, set[str]] = {}
+    for q, fi in model.funcs.items():
+        for c in ast.walk(fi.node):
+            if isinstance(c, ast.Call):
+                t = model.callee(fi, c)
+                if t in model.funcs:
+                    callers.setdefault(t, set()).add(q)
+
+    def only_from_removal(q: str, seen: frozenset = frozenset()) -> bool:
+        if q == RM:
+            return True
+        if q in seen or not callers.get(q):
+            return False
+        return all(only_from_removal(c2, seen | {q}) for c2 in callers[q])
+
+    bad = [q for q in sites if q != SC and not only_from_removal(q)]
+    run.check(rid, "the database is committed only through SQLSession.commit and the per-page removal", not bad and SC in sites, "commit sites", f"{[q.split('zorg.')[-1] for q in bad] or 'ok'}",
+              f"functions that commit the database outside SQLSession.commit / the per-page removal: {[q.split('zorg.')[-1] for q in bad]}", file=FILE_R)
     fx = model.func("zorg.storage.sql._session.SQLSession.__exit__")
     ok = any(isinstance(c, ast.Call) and isinstance(c.func, ast.Attribute) and c.func.attr == "rollback" for c in ast.walk(fx.node))
     run.check(rid, "leaving a session rolls back uncommitted work", ok, "SQLSession.__exit__", "rollback", "SQLSession.__exit__ does not roll back", file=fx.file, node=fx.node)
@@ -619,7 +638,8 @@ def ack_before_writeback(run: Run, model: PyModel, eff: Effects, rid: str) -> No
 
 
 def hashmap_readers(run: Run, model: PyModel, rid: str) -> None:
-    """Only reindex_database may depend on the content of file_hash.json (create and the write-back only overwrite it)."""
+    """Only `db reindex` may depend on the content of file_hash.json (create and the write-back only overwrite it):
+    every function that reads it is reachable from reindex_database and from no other registered handler."""
     readers = []
     for q, fi in model.funcs.items():
         if not q.startswith(H):
@@ -627,10 +647,47 @@ def hashmap_readers(run: Run, model: PyModel, rid: str) -> None:
         txt = ast.unparse(fi.node)
         for c in ast.walk(fi.node):
             if isinstance(c, ast.Call) and isinstance(c.func, ast.Attribute) and c.func.attr in ("read_bytes", "read_text") and "hash" in ast.unparse(c.func.value):
-                readers.append(q.split(".")[-1])
+                readers.append(q)
             if isinstance(c, ast.Call) and ast.unparse(c.func) in ("json.load",) and "hash" in txt:
-                readers.append(q.split(".")[-1])
+                readers.append(q)
     readers = sorted(set(readers))
-    run.check(rid, "only reindex_database reads file_hash.json", readers == ["reindex_database"], "handlers", f"readers {readers}",
-              f"file_hash.json is read by {readers}: `db create` and the write-back handlers used to only overwrite it, which is why they survive a torn (truncated) hash map; "
+    entry = [q for q in (f"{H}.create_database", f"{H}.add_zids_to_notes_in_file", f"{H}.update_note_modify_dates", f"{H}.reindex_database_after_edit") if q in model.funcs]
+    offenders = []
+    for e in entry:
+        reach = model.reachable([e])
+        offenders += [(e.split(".")[-1], r.split(".")[-1]) for r in readers if r in reach]
+    from_reindex = all(r in model.reachable([f"{H}.reindex_database"]) for r in readers)
+    run.check(rid, "only reindex_database depends on the content of file_hash.json", not offenders and from_reindex and bool(readers), "handlers", f"readers {[r.split('.')[-1] for r in readers]} offenders {offenders}",
+              f"file_hash.json is read on the path of {offenders or [r.split('.')[-1] for r in readers]}: `db create` and the write-back handlers used to only overwrite it, which is why they survive a torn (truncated) hash map; "
               "a reader on their path turns a torn write into a JSONDecodeError on every re-run", file=FILE_H)
+
+
+def removal_internals(run: Run, model: PyModel, rid: str) -> None:
+    """remove_file_by_name (helpers folded in): every row reached from the page -- notes, H1..H4 sections, blocks, the page itself --
+    is deleted unconditionally: each loop over `.notes`, `.h1s` .. `.h4s` and over the collected blocks deletes its element."""
+    from .flatten import flat_info
+
+    fr = flat_info(model, f"{REPO}.SQLRepo.remove_file_by_name")
+    deleted = {ast.unparse(c.args[0]) for c in ast.walk(fr.node) if isinstance(c, ast.Call) and isinstance(c.func, ast.Attribute) and c.func.attr == "delete" and c.args}
+    need = {}
+    page_expr = None
+    for l in ast.walk(fr.node):
+        if isinstance(l, ast.For) and isinstance(l.target, ast.Name):
+            it = ast.unparse(l.iter)
+            for suffix, what in ((".notes", "notes"), ("h1s", "H1 sections"), (".h2s", "H2 sections"), (".h3s", "H3 sections"), (".h4s", "H4 sections"), ("blocks", "blocks")):
+                if it.endswith(suffix) or it.split("__")[0].endswith(suffix):
+                    need.setdefault(what, []).append((l.target.id, l))
+            if it.endswith(".notes") and isinstance(l.iter, ast.Attribute):
+                page_expr = ast.unparse(l.iter.value)
+    for what in ("notes", "H1 sections", "H2 sections", "H3 sections", "H4 sections", "blocks"):
+        loops = need.get(what, [])
+        def direct(v, l):
+            """`<session>.delete(v)` is a statement of the loop body itself (not under a condition)."""
+            return any(isinstance(s2, ast.Expr) and isinstance(s2.value, ast.Call) and isinstance(s2.value.func, ast.Attribute) and s2.value.func.attr == "delete" and s2.value.args
+                       and ast.unparse(s2.value.args[0]) == v for s2 in l.body)
+
+        ok = bool(loops) and any(direct(v, l) and not any(isinstance(x, (ast.Continue, ast.Break)) for x in ast.walk(l)) for v, l in loops)
+        run.check(rid, f"every row of the removed page's {what} is deleted", ok, "SQLRepo.remove_file_by_name", f"{what}: loops {[v for v, _ in loops]} deleted {sorted(deleted)[:8]}",
+                  f"remove_file_by_name does not unconditionally delete the {what} of the page: stale rows stay behind and show up in queries / get duplicated", file=FILE_R, node=fr.node)
+    run.check(rid, "the page row itself is deleted", page_expr is not None and page_expr in deleted, "SQLRepo.remove_file_by_name", "page row deletion",
+              "remove_file_by_name leaves the page row behind", file=FILE_R, node=fr.node)
